@@ -445,7 +445,7 @@ def gen_triggers(ctx, rng):
                     triggers.append((t + 9.0, "reconnect_soon", None))
                 yield {"hosts": hosts, "plan": base["plan"], "tail": base["tail"], "triggers": triggers, "horizon": t + 200}
     # seeded random multi-trigger timelines
-    for k in range(ctx.pick(600, 12000)):
+    for k in range(ctx.pick(600, 80000)):
         base = rng.choice(BASES)
         hosts = base.get("hosts", ["10.0.0.5"])
         n = rng.randint(1, 4)
